@@ -2014,3 +2014,115 @@ def unwrap_memo_functions(tree):
         ast.fix_missing_locations(tree)
         _link(tree)
     return done
+
+
+# ---------------------------------------------------------------------------------------------------------------------
+# categories named once at module level
+# ---------------------------------------------------------------------------------------------------------------------
+def _canonical_cat_text(text):
+    """is `text` the spelling str() gives the category it parses to? (then `c == text`, which compares str(c), and
+    `c == Category.parse(text)`, which compares the structures, are the same test)"""
+    from . import datafiles
+    try:
+        return datafiles.show_cat(datafiles.parse_cat(text)) == text
+    except Exception:
+        return False
+
+
+def inline_category_constants(tree):
+    """NAME = Category.parse("S[dcl]") at module level, bound once and never rebound: a use of NAME in a function reads as
+    the text it stands for wherever a category is compared (`x == NAME`, `x in (A, B)`: Category.__eq__ against a text
+    compares the canonical spelling, against a category the structure -- the same test for a canonical text), and as
+    Category.parse("S[dcl]") anywhere else (operand of ^, a returned value).  Tuples of such values
+    (`(Category.parse(a), Category.parse(b))`, `tuple(Category.parse(c) for c in ("a", "b"))`) likewise."""
+    def parsed_text(v):
+        if isinstance(v, ast.Call) and ast.unparse(v.func) in PURE_VALUE_PARSERS and len(v.args) == 1 and not v.keywords \
+                and isinstance(v.args[0], ast.Constant) and isinstance(v.args[0].value, str) and _canonical_cat_text(v.args[0].value):
+            return v.args[0].value
+        return None
+
+    def parsed_texts(v):
+        if isinstance(v, ast.Tuple) and v.elts and all(parsed_text(e) is not None for e in v.elts):      # (a list is a table the rules know by name)
+            return [parsed_text(e) for e in v.elts]
+        if isinstance(v, ast.Call) and ast.unparse(v.func) in ('tuple', 'frozenset') and len(v.args) == 1 and isinstance(v.args[0], (ast.GeneratorExp, ast.ListComp)):
+            g = v.args[0]
+            if len(g.generators) == 1 and not g.generators[0].ifs and isinstance(g.generators[0].target, ast.Name) \
+                    and isinstance(g.generators[0].iter, (ast.Tuple, ast.List)) and all(isinstance(e, ast.Constant) and isinstance(e.value, str) for e in g.generators[0].iter.elts) \
+                    and isinstance(g.elt, ast.Call) and ast.unparse(g.elt.func) in PURE_VALUE_PARSERS and len(g.elt.args) == 1 \
+                    and isinstance(g.elt.args[0], ast.Name) and g.elt.args[0].id == g.generators[0].target.id:
+                texts = [e.value for e in g.generators[0].iter.elts]
+                if all(_canonical_cat_text(t) for t in texts):
+                    return texts
+        return None
+    single, multi = {}, {}
+    stmts = {}
+    for st in tree.body:
+        if isinstance(st, ast.Assign) and len(st.targets) == 1 and isinstance(st.targets[0], ast.Name):
+            t = parsed_text(st.value)
+            ts = parsed_texts(st.value) if t is None else None
+            if t is not None:
+                single[st.targets[0].id] = t
+                stmts[st.targets[0].id] = st
+            elif ts is not None:
+                multi[st.targets[0].id] = ts
+                stmts[st.targets[0].id] = st
+    if not single and not multi:
+        return []
+    # bound once in the whole module (no rebinding, no global declaration, no parameter / local of the same name)
+    stores = {}
+    for n in ast.walk(tree):
+        if isinstance(n, ast.Name) and isinstance(n.ctx, (ast.Store, ast.Del)):
+            stores[n.id] = stores.get(n.id, 0) + 1
+        if isinstance(n, ast.arg):
+            stores[n.arg] = stores.get(n.arg, 0) + 1
+        if isinstance(n, (ast.Global, ast.Nonlocal)):
+            for nm in n.names:
+                stores[nm] = stores.get(nm, 0) + 2
+    for nm in list(single) + list(multi):
+        if stores.get(nm, 0) != 1:
+            single.pop(nm, None)
+            multi.pop(nm, None)
+
+    def as_parse(text):
+        return ast.Call(func=ast.Attribute(value=ast.Name(id='Category', ctx=ast.Load()), attr='parse', ctx=ast.Load()), args=[ast.Constant(value=text)], keywords=[])
+
+    class _T(ast.NodeTransformer):
+        def __init__(self):
+            self.compared = 0
+
+        def visit_Compare(self, node):
+            eq_only = all(isinstance(o, (ast.Eq, ast.NotEq, ast.In, ast.NotIn)) for o in node.ops)
+            if eq_only:
+                self.compared += 1
+            self.generic_visit(node)
+            if eq_only:
+                self.compared -= 1
+            return node
+
+        def visit_Name(self, node):
+            if not isinstance(node.ctx, ast.Load):
+                return node
+            if node.id in single:
+                new = ast.Constant(value=single[node.id]) if self.compared else as_parse(single[node.id])
+                return ast.copy_location(new, node)
+            if node.id in multi:
+                elts = [ast.Constant(value=t) if self.compared else as_parse(t) for t in multi[node.id]]
+                return ast.copy_location(ast.Tuple(elts=elts, ctx=ast.Load()), node)
+            return node
+
+        def visit_Call(self, node):
+            # inside a call that sits in a comparison the value is an argument, not a comparand: str(x) == .., f(NAME) == ..
+            saved, self.compared = self.compared, 0
+            self.generic_visit(node)
+            self.compared = saved
+            return node
+    done = []
+    tr = _T()
+    for st in tree.body:
+        if isinstance(st, (ast.FunctionDef, ast.ClassDef)):
+            tr.visit(st)
+    for nm in list(single) + list(multi):
+        # the binding stays (other modules may import it); it is no longer read here
+        done.append(nm)
+    ast.fix_missing_locations(tree)
+    return done
